@@ -21,7 +21,7 @@ from . import c17_lib
 from . import kernel as K
 
 PROP = "C17"
-REF_HASHSEEDS = ["101", "7919"]
+REF_HASHSEEDS = ["101", "7919", "4"]
 FOREIGN_LISTS = [["X", "Y", "Z"], ["E", "H", "HE", "C", "N", "O", "S", "SI"], ["e", "H", "He", "Co", "Ca", "Cl", "O"], ["H"]]
 
 
@@ -69,17 +69,23 @@ def ref_problems(lib, refs):
     """(unusable ids with reason, hash-seed violations)"""
     unusable, hs_viol = {}, []
     for d in lib:
-        a, b = (refs[d["id"]][h] for h in REF_HASHSEEDS)
+        a = refs[d["id"]][REF_HASHSEEDS[0]]
         bad = [s for s in a["steps"] if s.startswith("exc:")]
         if bad:
             unusable[d["id"]] = bad[0]
             continue
         ra = [r.get("digest", r.get("exc")) for r in a["renders"]]
-        rb = [r.get("digest", r.get("exc")) for r in b["renders"]]
-        if a["steps"] != b["steps"] or ra != rb:
-            k = next((i for i, (x, y) in enumerate(zip(ra, rb)) if x != y), 0)
-            hs_viol.append({"desc": d, "render": k, "clause": "hash-seed-dependence",
-                            "files": diff_files(a["renders"][k], b["renders"][k])})
+        differs = False
+        for h in REF_HASHSEEDS[1:]:
+            b = refs[d["id"]][h]
+            rb = [r.get("digest", r.get("exc")) for r in b["renders"]]
+            if a["steps"] != b["steps"] or ra != rb:
+                k = next((i for i, (x, y) in enumerate(zip(ra, rb)) if x != y), 0)
+                hs_viol.append({"desc": d, "render": k, "clause": "hash-seed-dependence", "seeds": [REF_HASHSEEDS[0], h],
+                                "files": diff_files(a["renders"][k], b["renders"][k])})
+                differs = True
+                break
+        if differs:
             continue
         # "independent of how often it is rendered": an identical render request repeated with
         # no edit in between must give the identical artefact (checked on the solo run itself)
@@ -425,7 +431,11 @@ def channels():
     def replacement(N):
         N.Species._replacement = {}
 
-    return {"user-tables": user_tables, "replacement": replacement}
+    def cli_tables(N):
+        user_tables(N)
+        replacement(N)
+
+    return {"user-tables": user_tables, "replacement": replacement, "cli-tables": cli_tables}
 
 
 def replay(path):
@@ -624,7 +634,7 @@ def report(viols, hs_viol, lib_by_id, lib, refs, seed, scratch):
         replays.append(path)
         if h["clause"] == "hash-seed-dependence":
             out.append(f"violated clause: hash-seed-dependence: {h['desc']['id']} alone renders differently under PYTHONHASHSEED "
-                  f"{REF_HASHSEEDS[0]} and {REF_HASHSEEDS[1]} in {h['files'][:5]}")
+                  f"{' and '.join(h.get('seeds', REF_HASHSEEDS[:2]))} in {h['files'][:5]}")
         else:
             out.append(f"violated clause: repeated-render-differs: {h['desc']['id']} alone: render #{h['render']} repeats the previous "
                   f"request with no edit in between but differs in {h['files'][:5]}")
